@@ -233,7 +233,7 @@ func (ex *Exec) unmodelledCall(fr *Frame, st *State, c *ssa.CallCommon, args []V
 			}
 		}
 	}
-	if ex.catchesPanics() {
+	if ex.catchesPanics() && ex.inHandler == 0 {
 		// any call may panic: add an exceptional edge
 		ps := st.clone()
 		pv := ex.cx.fresh("panic_in_"+name, SIface)
@@ -258,6 +258,8 @@ func (ex *Exec) unmodelledCall(fr *Frame, st *State, c *ssa.CallCommon, args []V
 	return rv
 }
 
+// Calls made by the deferred handlers themselves (error.Error, fmt.Sprint,
+// WaitGroup.Done) are assumed not to panic.
 func (ex *Exec) catchesPanics() bool {
 	return ex.fc != nil && ex.fc.Opts["calls"] == "may-panic"
 }
